@@ -9,6 +9,8 @@ import (
 	"strconv"
 	"strings"
 	"sync"
+	"sync/atomic"
+	"time"
 
 	"github.com/ory/fosite/storage"
 )
@@ -76,7 +78,19 @@ func LockOrderRegister(m *storage.MemoryStore) {
 	}
 }
 
+// lockDelay, if set, is slept just before a goroutine starts waiting for a store lock: it widens the gap between two critical
+// sections of one store operation (where another goroutine can observe an intermediate state), never a critical section itself.
+var lockDelay atomic.Int64
+
+// LockDelay makes every acquisition of a MemoryStore table lock start with a pause of d (0 switches it off).
+func LockDelay(d time.Duration) { lockDelay.Store(int64(d)) }
+
 func (lo *lockOrderState) observe(lock uintptr, write bool, event int) {
+	if event == storage.LockWanted {
+		if d := lockDelay.Load(); d > 0 {
+			time.Sleep(time.Duration(d))
+		}
+	}
 	g := goid()
 	lo.mu.Lock()
 	defer lo.mu.Unlock()
